@@ -557,3 +557,56 @@ fn get_active_chord<'a, T>(
         delay: since,
     }
 }
+
+// Read-only view for the verification harness. Compiled only with `--cfg jtroo_kanata_verif`.
+#[cfg(jtroo_kanata_verif)]
+impl<'a, T> ChordsV2<'a, T> {
+    /// Canonical rendering of the private run-time state, for state-level comparison with a model.
+    pub fn verif_digest_chv2(&self) -> String {
+        use std::fmt::Write;
+        let mut o = String::new();
+        o.push_str("q=[");
+        for (i, q) in self.queue.iter().enumerate() {
+            if i > 0 {
+                o.push(',');
+            }
+            match q.event {
+                Event::Press(r, y) => {
+                    let _ = write!(o, "p{}.{}@{}", r, y, q.since);
+                }
+                Event::Release(r, y) => {
+                    let _ = write!(o, "r{}.{}@{}", r, y, q.since);
+                }
+            }
+        }
+        o.push_str("];ac=[");
+        for (i, a) in self.active_chords.iter().enumerate() {
+            if i > 0 {
+                o.push(',');
+            }
+            let st = match a.status {
+                Unread => "U",
+                UnreadReleased => "UR",
+                Releasable => "R",
+                Released => "X",
+            };
+            let rem: Vec<String> = a.remaining_keys_to_release.iter().map(|k| k.to_string()).collect();
+            let keys: Vec<String> = a.participating_keys.iter().map(|k| k.to_string()).collect();
+            let _ = write!(o, "{}/{}/{}/{}/{}", a.coordinate, st, a.delay, rem.join("."), keys.join("."));
+        }
+        let _ = write!(
+            o,
+            "];ti={};tu={};pl={};pq={};nc={}",
+            self.ticks_to_ignore_chord,
+            self.ticks_until_next_state_change,
+            self.prev_active_layer,
+            self.prev_queue_len,
+            self.next_coord.get()
+        );
+        o
+    }
+    /// The configured `chords-v2-min-idle`.
+    pub fn verif_min_idle(&self) -> u16 {
+        self.configured_ticks_to_ignore_chord
+    }
+}
